@@ -178,8 +178,8 @@ def gen_compile_op(rng, tier):
     if rng.random() < 0.3:
         # modules of the hand-built corpus: tables, rows, columns, compliance, capabilities, SMIv1 traps; 'full' and
         # 'fullalt' share the module name and symbol names but not the roles of the symbols
-        cname = rng.choice(['full', 'fullalt', 'full', 'fullalt', 'v1', 'small'])
-        mname = {'full': 'FULL-MIB', 'fullalt': 'FULL-MIB', 'v1': 'OLD-MIB', 'small': 'AAA-MIB'}[cname]
+        cname = rng.choice(['full', 'fullalt', 'full', 'fullalt', 'v1', 'small', 'quirky', 'quirky'])
+        mname = {'full': 'FULL-MIB', 'fullalt': 'FULL-MIB', 'v1': 'OLD-MIB', 'small': 'AAA-MIB', 'quirky': 'QUIRK-MIB'}[cname]
         op = {'op': 'compile', 'modules': {}, 'corpus': [cname], 'requested': [mname], 'codegen': 'pysnmp' if rng.random() < 0.1 else 'json', 'options': {}}
         if rng.random() < 0.4:
             op['options']['genTexts'] = True
@@ -189,6 +189,9 @@ def gen_compile_op(rng, tier):
     for sp in specs.values():
         if rng.random() < 0.2:
             sp['fakeidx'] = True
+        if rng.random() < 0.25:
+            sp['dupobj'] = True
+            sp['compliance'] = True
     op = {'op': 'compile', 'modules': specs, 'requested': [sorted(specs)[-1]], 'codegen': 'pysnmp' if rng.random() < 0.06 else 'json', 'options': {}}
     for name, p in (('genTexts', .3), ('ignoreErrors', .5), ('noDeps', .15), ('rebuild', .1)):
         if rng.random() < p:
